@@ -2,7 +2,7 @@
    equal bit for bit to what getTotalWeight() returns), S = the implementation's own value, accepted iff it lies within the proved
    accumulated-rounding-error bound of the exact sum of the stored weights (FloatTotalProofs.ftotal_error / fget_error). *)
 From Coq Require Import List ZArith.
-From Flocq Require Import Core Operations.
+From Flocq Require Import Core Operations BinarySingleNaN.
 From BG Require Import Base FloatTotal.
 Import ListNotations.
 Local Open Scope Z_scope.
@@ -64,3 +64,13 @@ Definition djf_spec (und : bool) (n : nat) (es : list (nat * nat * (Z * Z))) (s 
     [Some [ds; if Nat.eqb (length ipred) n && forallb (fun v => fpred_ok g ds s v (nth v ipred (-1))) (seq 0 n) then ipred else [-8];
            if Nat.leb (length cs) (n + length (concat g) + 1) then [Z.of_nat (length cs)] else [-8]; map Z.of_nat cs]]
   | None => [None] end.
+
+(* ---- operator== on weighted graphs whose weights are arbitrary doubles (C06): the base-class comparison (same pairs, weights equal as
+   doubles: +0 == -0); the running totals are NOT part of it, whatever order the histories used ---- *)
+Definition fw_sub (a b : list (nat * nat * dbl)) : bool :=
+  forallb (fun kv => match flook (fst kv) b with Some w' => BinarySingleNaN.Beqb (snd kv) w' | None => false end) a.
+Definition feq_case (und : bool) (opsA opsB : list fop) : list (list (list Z)) :=
+  let a := fw (frun und opsA) in let b := fw (frun und opsB) in
+  let e := fw_sub a b && fw_sub b a in
+  let z (x : bool) := if x then 1 else 0 in
+  [[[z e; z e; z (negb e); z (negb e); 1; 1]]].
